@@ -2,7 +2,7 @@ SPECIFICATION Spec
 CONSTANTS Times <- McTimesS
  ExpChoices <- McExp
  OfferMenu <- McMenuS
- MaxBlocks = 4
+ MaxBlocks = 3
  DupCheck = FALSE
  PayloadIdentity = TRUE
 INVARIANTS AtMostOnce InWindow ForkFree
